@@ -210,7 +210,7 @@ fn replay(path: &str) -> ! {
     std::process::exit(if bad[0] { 1 } else { 0 });
 }
 
-fn main() {
+pub fn main() {
     let args = Args::parse();
     runx::silence_panics();
     if let Some(p) = &args.replay {
